@@ -230,3 +230,51 @@ func init() {
 		return CV{ctx.ex.f.App("strconv.FormatInt_", SStr, args[0].t, ctx.ex.f.Int(10)), types.Typ[types.String]}
 	}
 }
+
+func init() {
+	// sdk.KVStorePrefixIterator(store, prefix): an iterator whose keys all start with prefix. The iterator value
+	// carries its prefix (iter.prefix); iterprefix(it) reads it back in contracts. Other ways to obtain an
+	// iterator leave iter.prefix unconstrained.
+	for _, n := range []string{"github.com/cosmos/cosmos-sdk/types.KVStorePrefixIterator", "github.com/cosmos/cosmos-sdk/store/types.KVStorePrefixIterator", "github.com/cosmos/cosmos-sdk/types.KVStoreReversePrefixIterator"} {
+		reg(n, func(fr *Frame, st *State, c *ssa.CallCommon, a []*Term) ([]*Term, bool) {
+			ex := fr.ex
+			f := ex.f
+			if a[1].sort != Sort("Slice") {
+				return nil, false
+			}
+			it := f.Fresh("kviter", SInt)
+			ex.assume(st, f.Gt(it, f.Int(0)))
+			ex.assume(st, f.Eq(f.App("iter.prefix", SStr, it), ex.bytesToStr(st, a[1])))
+			return []*Term{it}, true
+		})
+	}
+	extraSpecFuncs["iterprefix"] = func(ctx *EvalCtx, args []CV) CV {
+		return CV{ctx.ex.f.App("iter.prefix", SStr, args[0].t), types.Typ[types.String]}
+	}
+}
+
+func init() {
+	// utils.Serialize(x uint64): 8 fresh bytes whose contents are a function of the value (little endian; trusted)
+	reg("github.com/lavanet/lava/v5/utils.Serialize", func(fr *Frame, st *State, c *ssa.CallCommon, a []*Term) ([]*Term, bool) {
+		ex := fr.ex
+		f := ex.f
+		mi, ok := c.Args[0].(*ssa.MakeInterface)
+		if !ok {
+			return nil, false
+		}
+		b, ok := types.Unalias(mi.X.Type()).Underlying().(*types.Basic)
+		if !ok || b.Kind() != types.Uint64 {
+			return nil, false
+		}
+		content := f.App("utils.serialize_u64_", SStr, fr.val(mi.X))
+		ex.assume(st, f.Eq(ex.tm.StrLen(content), f.Int(8)))
+		return []*Term{ex.newBytesOf(st, content)}, true
+	})
+}
+
+func init() {
+	// ser64(x): the 8-byte string utils.Serialize(x) returns
+	extraSpecFuncs["ser64"] = func(ctx *EvalCtx, args []CV) CV {
+		return CV{ctx.ex.f.App("utils.serialize_u64_", SStr, args[0].t), types.Typ[types.String]}
+	}
+}
